@@ -420,6 +420,35 @@ Definition decode_recurrence_b (k nr : Z) (base : float) (decode : Z -> float) (
      let T := dy_add (dy_mul (dy_add (dy_add d1 d1) (dy_of_Z (- nr))) bm1) (dy_of_Z 1) in
      dy_close k (dy_add (dy_mul diff bm1) T) T) cs.
 
+(* ------------------------------------------------------------------ the conditions on a decode table under
+   which CmsLogFloat.v proves the merge cell rule for every pair of counters (one evaluation per
+   configuration, linear in the table) *)
+Definition fin_b (x : float) : bool :=
+  match FloatOps.Prim2SF x with SpecFloat.S754_zero _ | SpecFloat.S754_finite _ _ _ => true | _ => false end.
+Definition f_big : float := (0x1p+900)%float.
+Definition f_mone : float := (-0x1p+0)%float.
+
+Definition float_tables_ok_b (nr umax max_count : Z) (decode : Z -> float) : bool :=
+  let mcf := u64_to_float max_count in
+  let nextf := decode (wrap16 (umax + 1)) in
+  let topf := decode umax in
+  (0 <=? nr) && (nr <? umax) && (umax <? 2 ^ 16) &&
+  forallb (fun c => fin_b (decode c) && PrimFloat.ltb (decode c) (decode (c + 1))) (zrange 0 umax) &&
+  fin_b topf &&
+  forallb (fun c => PrimFloat.eqb (decode c) (z2f c)) (zrange 0 (nr + 2)) &&
+  PrimFloat.leb topf f_big &&
+  fin_b mcf && PrimFloat.leb f_zero mcf && PrimFloat.leb mcf f_big &&
+  fin_b nextf && PrimFloat.leb f_zero nextf && PrimFloat.leb nextf f_big &&
+  (PrimFloat.leb mcf topf ||
+   (PrimFloat.leb f_one (nextf - topf) && PrimFloat.leb ((mcf - topf) / (nextf - topf)) f_half) ||
+   PrimFloat.leb (nextf - topf) f_mone).
+
+(* the two extra conditions of C09_log_empty (CmsLogFloat.v) as a boolean *)
+Definition float_tables_empty_ok_b (nr umax max_count : Z) (decode : Z -> float) : bool :=
+  forallb (fun c => PrimFloat.ltb f_zero (decode (c + 1) - decode c)) (zrange nr (umax - nr)) &&
+  PrimFloat.ltb (decode (umax - 1)) (u64_to_float max_count).
+
+
 (* ------------------------------------------------------------------ per-configuration reflection for
    the merge cell rule: every pair of counters of one concrete configuration, by evaluation *)
 Definition merge_pair_ok_b (nr umax max_count : Z) (decode : Z -> float) (castc : Z -> Z) (a b : Z) : bool :=
